@@ -168,6 +168,10 @@ def run_check(check, tier, seed, jobs=None):
             futs = []
             for i, spec in enumerate(shards):
                 env_extra = spec.pop("_env", None) if isinstance(spec, dict) else None
+                if i % 4 == 3 and not getattr(check, "NO_LOGFORMAT", False):
+                    # every fourth shard runs with the library's DEBUG log
+                    # records formatted (see core.setup_env)
+                    env_extra = dict(env_extra or {}, VMON_LOGFORMAT="1")
                 python = spec.pop("_python", None) if isinstance(spec, dict) else None
                 futs.append(ex.submit(run_worker, prop, spec, td, i, timeout, env_extra, python))
             for f in futs:
